@@ -450,6 +450,19 @@ def oracle_case(sp, spec, solver, given, xgiven):
         bad = infeas > 1e-3 * (1 + abs(BOX[1] - BOX[0])) * (10 if seff == "PrimalDualHybridGradient" else 1) or abs(Fx - Fr) > 10 * tol * scale
     else:
         bad = (Fx - Fr) > tol * scale or (Fr - Fx) > 1e-7 * scale
+    if bad and seff != "ConjugateGradient" and pk != "box" and (Fx - Fr) > 0:
+        # a first-order method on an ill-conditioned instance may simply need more iterations than the harness gave it: run
+        # 8 times longer; if the gap to the optimum keeps shrinking (at least halves, or reaches the tolerance) the run is slow,
+        # not wrong.  A solver that minimises a different problem stalls at a positive gap and is still reported.
+        try:
+            app2, _ = run_solver(sp, make_problem(sp, spec), spec, solver, given, xgiven, max_iter=8 * MAX_ITER.get(seff, 10))
+            x2 = app2.run()
+            F2, _ = objective(P, pk, x2)
+            if np.all(np.isfinite(x2)) and ((F2 - Fr) <= tol * scale or (F2 - Fr) <= 0.5 * (Fx - Fr)):
+                res.update(kind="slow-convergence", ok=True, F_longer_run=F2)
+                return res
+        except Exception:        # noqa
+            pass
     if bad:
         res.update(ok=False, kind="not-optimal",
                    detail="objective %.9g (infeasibility %.3g) vs optimum %.9g, tol %.1g*%.3g" % (Fx, infeas, Fr, tol, scale))
@@ -604,6 +617,9 @@ def run(ctx):
                   sample={"job": job, "F": r.get("Fx"), "Fref": r.get("Fref"), "infeasibility": r.get("infeas")})
         if r.get("kind") == "reference-unreliable":
             stats["reference_unreliable"] += 1
+            continue
+        if r.get("kind") == "slow-convergence":
+            stats["slow_convergence_rerun_8x"] = stats.get("slow_convergence_rerun_8x", 0) + 1
             continue
         if r["ok"] and r.get("Fref") is not None:
             sc = max(abs(r["Fref"]), 1e-12)
